@@ -172,6 +172,14 @@ func genMeta(r *Rand, o *TextOpts) []PairT {
 	var ps []PairT
 	n := 1 + r.Intn(3)
 	used := map[string]bool{}
+	if r.Chance(1, 12) {
+		// several keys crd does not know, in one item (they are carried along:
+		// the order they are printed in is part of the result)
+		for _, k := range []string{"zeta", "alpha", "Mid", "9th", "foo", "bar"}[r.Intn(3):] {
+			ps = append(ps, PairT{Key: k, Value: genMetaText(r, o)})
+			used[k] = true
+		}
+	}
 	for i := 0; i < n; i++ {
 		k := Pick(r, []string{"txt", "lic", "mrk", "bpm", "vel", "mtr", "key"})
 		if o.Exotic && r.Chance(1, 8) {
